@@ -112,5 +112,5 @@ Definition module_eqb := amap_eqb app_eqb.
    (by CanonProps.denote_canon the two coincide there - this ties `canon` itself to the implementation). *)
 Definition ok (c : spec * option module) : bool :=
   option_eqb module_eqb (denote (fst c)) (snd c) &&
-  (if wf_sub (fst c) && no_mixins (canon (fst c)) && no_rescope (canon (fst c))
+  (if wf_sub (fst c) && no_mixins (canon (fst c)) && no_rescope (canon (fst c)) && no_collector (canon (fst c))
    then option_eqb module_eqb (Some (canon (fst c))) (snd c) else true).
